@@ -102,9 +102,13 @@ theorem C05_rsi_step {fp fn : List ℚ → ℚ} {gains losses : List ℚ} {s : R
     let pos := fp (gains ++ [g])
     let neg := -(fn (losses ++ [l]))
     ∃ v s', s.vals k = .ok ([v], s') ∧
-      v.value = (if pos + neg = 0 then half else pos / (pos + neg)) ∧
+      v.value = (if pos + neg = 0 then half else qclamp (pos / (pos + neg)) 0 1) ∧ 0 ≤ v.value ∧ v.value ≤ 1 ∧
       Realises fp s'.posma (gains ++ [g]) ∧ Realises fn s'.negma (losses ++ [l]) ∧
       s'.previous_input = src ∧ s'.cfg = s.cfg := RSI.vals_spec k hp hn
+
+/-- the clamp of the code (`fix:` 91f0f9b) does nothing for non-negative averages: the value is the documented pos / (pos + neg) -/
+theorem C05_rsi_unclamped (pos neg : ℚ) (h1 : 0 ≤ pos) (h2 : 0 ≤ neg) (hz : pos + neg ≠ 0) :
+    qclamp (pos / (pos + neg)) 0 1 = pos / (pos + neg) := RSI.value_unclamped pos neg h1 h2 hz
 
 theorem C05_cmo_step {P : Nat} {s : CMO} (k : Candle ℚ) (h : CMO.Inv P s) :
     ∃ v s', s.vals k = .ok ([v], s') ∧ CMO.Inv P s' ∧ 0 ≤ s'.pos_sum ∧ 0 ≤ s'.neg_sum ∧
@@ -357,3 +361,4 @@ end Yata.C05
 #print axioms Yata.C05.C05_macd_init_every_kind
 #print axioms Yata.C05.C05_macd_run
 #print axioms Yata.C05.C05_adx_t_textbook
+#print axioms Yata.C05.C05_rsi_unclamped
